@@ -31,6 +31,7 @@ TRUTHY = [True, True, 1, 5, "marked", 1.0, -1, "0", 2, "x"]
 FALSY = [False, 0, "", None, 0.0]
 SHARES = [F(1, 2), F(2, 3), F(3, 5), F(3, 4), F(1, 3), F(9, 10), F(1, 4), F(5, 8), F(11, 20), F(2, 5)]
 TOL = 1e-9
+stats_novalid = [0]     # super-majority margin checks made on a contest without any valid vote (measured)
 
 
 def AU():
@@ -589,11 +590,11 @@ def oracle_case(acase, fact, viol):
                         continue
                     kk = len((raw_marks(c, con) or set()) & lst)
                     ok = ok and (kk == 0 or (tallied(c) == (kk == 1)))
-                valid = sum(1 for c in cards if len((raw_marks(c, con) or set()) & lst) == 1)
-                ok = ok and valid > 0       # boundary convention: with no valid vote the tally margin is 0/0
             if not ok:
                 continue
             runs += 1
+            if kind[0] == "sm" and not any(len((raw_marks(c, con) or set()) & set(cands)) == 1 for c in cards):
+                stats_novalid[0] += 1       # no valid vote at all: the margin must be 0, not 0/0
             if math.isnan(mg) or abs(mg - (2 * o[key] - 1)) > TOL:
                 flag(f"{'super-majority' if kind[0] == 'sm' else 'plurality/approval'}: margin from the tally differs from 2*mean - 1 over the same cards",
                      {"margin_from_tally": mg, "two_mean_minus_one": 2 * o[key] - 1, "kind": kind,
@@ -695,6 +696,7 @@ def digest(ac):
 
 def run(ctx, res):
     rng = ctx.rng
+    stats_novalid[0] = 0
     n_worlds = ctx.n(260, 4000)
     a_cases, t_cases, m_cases = [], [], []
     stats = {}
@@ -781,8 +783,9 @@ def run(ctx, res):
                 "mark in the contest, distinct by (contest, winners, share, cards)")
     res.samples = [jcase({"con": c["con"], "spec": c["spec"], "cards": c["cards"][:6],
                           "obs": [{k: v for k, v in o.items() if k != "vals"} for o in c["obs"][:2]]}) for c in a_cases[:3]]
+    stats["oracle: super-majority margin identity on a contest with no valid vote"] = stats_novalid[0]
     res.stats = stats
     res.assumptions = ["Python dict keys are distinct (theorems: wf_card); candidate names map to integers, the empty name to 0",
-                       "margin clause guards: no card dropped by the rule check (plurality), tally and assorter agree on validity and "
-                       "at least one valid vote (super-majority: with none find_margin_from_tally returns nan = 0/0)",
+                       "margin clause guards: no card dropped by the rule check (plurality), tally and assorter agree on which ballots "
+                       "are valid (super-majority; a contest with no valid vote at all is included: margin 0)",
                        "super-majority assorter values 1/(2f) are doubles: compared with tolerance, the > 1/2 category exactly away from 1/2"]
